@@ -75,7 +75,7 @@ Print Assumptions C12_request_recovery_reached.
    lifetimes of the source, the Carrier's wait-and-retry recursion, the chain monitor's poll, the
    flag's mutex and condition variable; for ALL schedules and ALL answers of the node.
    ================================================================================================ *)
-From TeosModel Require Import Base TxIndex Tower ConcTower ConcReach ConcReachProofs ConcReachWitness.
+From TeosModel Require Import Base TxIndex Tower ConcTower ConcReach ConcReachProofs ConcReachWitness ConcReachAbs.
 
 (* A public method that reads flag = false returns Unavailable and changes nothing: its whole program is
    "take the flag's mutex, read the flag, drop the guard", and none of these steps touches the tower, the
@@ -136,7 +136,7 @@ Theorem C12_request_path_recovers_threads le sc fuel pf r0 pa0 held_a t0 c sched
   rc_threads c = [mk_rthread (RRun (poll_p le sc fuel (S pf) (RRet r0))) []; mk_rthread (RParked false pa0) held_a] ->
   let c' := rrun_config c sched in
   exists tm ta, rc_threads c' = [tm; ta] /\
-    (rfinished tm = true -> waiting_unnotified ta = false) /\
+    (rfinished tm = true -> rc_flag c' = true /\ waiting_unnotified ta = false) /\
     (forall r, rresult ta = Some r -> rc_tower c' = fst (rsolo pa0 t0) /\ r = snd (rsolo pa0 t0)).
 Proof.
   intros Hc Ho Ht Hp Hf Eth. apply (request_path_recovers le sc fuel pf r0 pa0 held_a t0 Hc).
@@ -204,6 +204,37 @@ Theorem C12_blocks_delivered_exactly_once c sched :
   rc_log c = [] -> consecutive (rc_height c) (delivered_heights (rc_log (rrun_config c sched))) = true.
 Proof. exact (delivered_heights_consecutive c sched). Qed.
 
+(* The abstract machine of Reach.v is an abstraction of thread-level configurations (`abs2`: monitor = thread 0,
+   an API worker = thread 1): the hypotheses of the three abstract theorems at the top of this file are the
+   abstractions of the thread-level situations, and their conclusions hold of the abstraction of EVERY thread-level
+   continuation.  (A state abstraction along all runs; not a step-by-step simulation: an abstract poll is atomic.) *)
+Theorem C12_abstract_block_path_is_abstraction le sc fuel pfuel t flag polls ops pending h ro fo w :
+  let c0 := rinit t flag (map (thread_p le sc fuel pfuel) (TMonitor polls :: map TApi ops)) pending h ro fo in
+  stuck_waiting (rrun_config c0 w) 0 = true ->
+  (Reach.mon (abs2 (rrun_config c0 w)) = Reach.M_wait_reach /\ Reach.flag (abs2 (rrun_config c0 w)) = false) /\
+  forall sched, Reach.mon (abs2 (rrun_config c0 (w ++ sched))) = Reach.M_wait_reach /\
+                Reach.flag (abs2 (rrun_config c0 (w ++ sched))) = false.
+Proof. exact (abs_block_path le sc fuel pfuel t flag polls ops pending h ro fo w). Qed.
+
+Theorem C12_abstract_request_path_block_is_abstraction le sc fuel pfuel t flag polls ops pending h ro fo w l :
+  let c0 := rinit t flag (map (thread_p le sc fuel pfuel) (TMonitor polls :: map TApi ops)) pending h ro fo in
+  stuck_on_lock (rrun_config c0 w) 0 1 l = true ->
+  forall sched, let s := abs2 (rrun_config c0 (w ++ sched)) in
+    Reach.mon s = Reach.M_wait_cache /\ Reach.api s = Reach.A_wait_reach /\ Reach.flag s = false.
+Proof. exact (abs_request_path_block le sc fuel pfuel t flag polls ops pending h ro fo w l). Qed.
+
+Theorem C12_abstract_recovery_is_abstraction le sc fuel pf r0 pa0 held_a t0 c sched :
+  calm pa0 -> snd (rsolo pa0 t0) <> RDone RUnavailable ->
+  rc_rpc_or c = [] -> rc_tower c = t0 -> rc_pending c = [] -> hd F_ok (rc_fetch_or c) = F_ok ->
+  rc_threads c = [mk_rthread (RRun (poll_p le sc fuel (S pf) (RRet r0))) []; mk_rthread (RParked false pa0) held_a] ->
+  (Reach.mon (abs2 c) = Reach.M_idle /\ Reach.api (abs2 c) = Reach.A_wait_reach /\
+   Reach.block_pending (abs2 c) = false /\ Reach.node_up (abs2 c) = true) /\
+  let c' := rrun_config c sched in
+  forallb rfinished (rc_threads c') = true ->
+  let s' := Reach.rstep (abs2 c) (Reach.E_poll false) in
+  Reach.flag (abs2 c') = Reach.flag s' /\ Reach.api (abs2 c') = Reach.api s' /\ Reach.mon (abs2 c') = Reach.mon s'.
+Proof. exact (abs_request_path_recovers le sc fuel pf r0 pa0 held_a t0 c sched). Qed.
+
 (* non-vacuity: kernel-evaluated executions (ConcReachWitness.v) *)
 Example C12_request_path_recovers_instance :
   let c := rrun_config (wr_request_quiet 1 [true]) wr_recover_sched in
@@ -246,3 +277,6 @@ Print Assumptions C12_block_path_stuck_refuted_threads.
 Print Assumptions C12_request_path_can_stick_refuted_threads.
 Print Assumptions C12_partial_poll_progress_kept.
 Print Assumptions C12_blocks_delivered_exactly_once.
+Print Assumptions C12_abstract_block_path_is_abstraction.
+Print Assumptions C12_abstract_request_path_block_is_abstraction.
+Print Assumptions C12_abstract_recovery_is_abstraction.
